@@ -69,13 +69,15 @@ type c14Case struct {
 	viol   []c14Violation
 	incon  string
 
-	panicked, inApply        bool
-	nearReached              bool
-	nFetch                   int
-	nReachable, nAccepted    int // interrupted-fetch: reachable left-overs / accepted without a fetch
-	nLoud                    int // ... answered with a loud error
-	leakMarkers, leakVisible int
-	leakReadyMs, leakCopyMs  float64
+	panicked, inApply              bool
+	nearReached                    bool
+	nFetch                         int
+	chkCalls, chkCallsWhileCopying int
+	chkNontrivial, chkOKBeforeDone bool
+	nReachable, nAccepted          int // interrupted-fetch: reachable left-overs / accepted without a fetch
+	nLoud                          int // ... answered with a loud error
+	leakMarkers, leakVisible       int
+	leakReadyMs, leakCopyMs        float64
 
 	// evidence
 	nBackups, nRestores, nRepeat, nOther, nCompact, nReopen, nHashChecks, nPurged, nImmediate, nCmds, nLaterDumps int
@@ -815,6 +817,7 @@ func runC14(c *vc.Ctx) error {
 		"Backup(term,index)+WaitReady exactly like kvStoreSM.GetSnapshot (reference raw+logical+PFCOUNT dump recorded before the next write; variants: wait for GetResult / continue writing immediately), CompactAllRange, " +
 		"Restore of an older or the newest checkpoint, repeated restore, SetLatestSnapIndex, restore on a second diverged store after copying the checkpoint dir, clean reopen; plus a director that forces same-named sst files with different content, " +
 		"plus the large-unflushed-WAL marker scenario, plus 'near-identical-sst' (A and B built by identical operation sequences, a few early keys overwritten on A only with same-length values, both compacted: B holds an sst with the name, size and tail of one in A's checkpoint), " +
+		"plus 'check-while-copying' (IsLocalBackupOK polled by another replica while backupLoop copies a large checkpoint; the directory is fetched at the moment it is reported ok and restored on a second store), " +
 		"plus 'interrupted-fetch' (sources A and C with the same data but different engine file numbers, a partial left-over of a fetch from C in B's backup dir, then the production prepareSnapshotForStore fetch from A and Restore). Oracle: dump(after restore) == dump(at backup instant) raw and logical; sha1 of every checkpoint file unchanged after restores/compactions/writes; purge never removes a checkpoint >= latest snapshot index nor the newest one. " +
 		"non-trivial = case with >=1 restore of a checkpoint after the store had diverged from it; distinct by hash(script)"
 	c.Ev.Assume("engines pebble and mem only; rocksdb checkpoints (hard-linked sst + backup engine) are not exercised")
@@ -955,6 +958,38 @@ func runC14(c *vc.Ctx) error {
 			c.Ev.Count("markers_visible_after_restore_"+eng, int64(cs.leakVisible))
 			c.Ev.Max("marker_scenario_copy_done_ms_max_"+eng, int64(cs.leakCopyMs))
 			c.Ev.Max("marker_scenario_waitready_ms_max_"+eng, int64(cs.leakReadyMs))
+			finishCase(cs)
+		}
+	}
+	// check-backup request while the checkpoint is being copied (serial: timing)
+	for i := 0; i < c.Pick(2, 8); i++ {
+		for _, eng := range []string{"pebble", "mem"} {
+			cs := newC14Case(c, id, "check-while-copying")
+			id++
+			cs.Engine, cs.Policy, cs.Keep = eng, "wait_compact", 0
+			mb := 32
+			if eng == "mem" {
+				mb = 6
+			}
+			func() {
+				defer func() {
+					if e := recover(); e != nil {
+						cs.panicked = true
+						cs.incon = fmt.Sprintf("panic: %v", e)
+					}
+				}()
+				cs.runCheckWhileCopying(mb)
+			}()
+			c.Ev.Count("check_while_copying_runs_"+eng, 1)
+			c.Ev.Count("check_while_copying_calls_started_while_copying_"+eng, int64(cs.chkCallsWhileCopying))
+			if cs.chkNontrivial {
+				c.Ev.Count("check_while_copying_nontrivial_(ok_call_started_while_copying)_"+eng, 1)
+			} else {
+				c.Ev.Count("check_while_copying_trivial_"+eng, 1)
+			}
+			if cs.chkOKBeforeDone {
+				c.Ev.Count("check_while_copying_ok_returned_before_done_closed_"+eng, 1)
+			}
 			finishCase(cs)
 		}
 	}
